@@ -33,6 +33,8 @@ var ipCases = []ipCase{
 	{"ok", `del(.b) | del(.c)`, "a: 1\nb: [1, 2, 3, 4, 5, 6, 7, 8, 9, 10]\nc: \"a long string that makes the old content much longer than the new one ....................\"\n", nil},
 	{"ok", `.c = "` + strings.Repeat("x", 300) + `"`, "a: 1\n", nil},
 	{"ok", `.x = 1`, "a: 1\n---\nb: 2\n", nil},
+	{"okempty", `select(.a == 5)`, "a: 1\n", nil}, // no result at all: the same command without -i prints nothing, so the file becomes empty
+	{"okempty", `.nothing[]`, "a: 1\nb: 2\n", []string{"-o=json"}},
 	{"parsefail", `.a = = 2`, "a: 1\n", nil},
 	{"parsefail", `.a)(`, "a: 1\n", nil},
 	{"decodefail", `.a = 2`, "a: [1\nb: 2\n", nil},
@@ -185,6 +187,11 @@ func projectTrace(lines []straceLine, target, tmpdir string, partial bool) (even
 			} else if strings.Contains(a, "<"+target+">") && seen["CreateDstTruncate"] {
 				add("Copy", l)
 			}
+		case "read":
+			// the read/write fallback of the copy ends with a read that returns 0 (for an empty temporary file it is all there is)
+			if strings.Contains(a, "<"+tempPrefix) && seen["CreateDstTruncate"] && strings.TrimSpace(l.ret) == "0" {
+				add("Copy", l)
+			}
 		case "copy_file_range", "sendfile":
 			if strings.Contains(a, "<"+target+">") || strings.Contains(a, "<"+tempPrefix) {
 				add("Copy", l)
@@ -252,7 +259,7 @@ func (i ipInjection) arg() string {
 // runs whose injection depends on a per-thread ordinal are executed alone (no other strace'd process competing for the
 // CPUs), which keeps the main goroutine on one thread
 
-const ipTrace = "trace=openat,newfstatat,fchmodat,fchownat,write,pwrite64,close,rename,renameat,renameat2,copy_file_range,sendfile,fsync,unlinkat,unlink,ftruncate,truncate"
+const ipTrace = "trace=openat,newfstatat,fchmodat,fchownat,read,write,pwrite64,close,rename,renameat,renameat2,copy_file_range,sendfile,fsync,unlinkat,unlink,ftruncate,truncate"
 
 type ipSetup struct {
 	otherFS      bool // TMPDIR on another file system (real EXDEV)
